@@ -292,13 +292,31 @@ func TestC07Base(t *testing.T) { h.Run(t, c07GenBase, c07CheckBase) }
 type c07LenCase struct {
 	NS, NP    int
 	BasePoint bool // pass the package's Basepoint slice itself (only when NP == 32)
+	// View: 1 = the point is the prefix Basepoint[:NP] of the package's own slice
+	// (NP <= 32: same first element, wrong length unless NP == 32); 2 = scalar
+	// and point are interior views of larger buffers (spare capacity, valid
+	// data beyond the end)
+	View int `json:",omitempty"`
 }
 
 func c07CheckLen(c c07LenCase) h.Result {
 	r := h.NewR().Class("len").NT(c.NS != 32 || c.NP != 32)
 	k := bytes.Repeat([]byte{0x5a}, c.NS)
-	var p []byte
-	if c.BasePoint {
+	var p, kb, pb []byte
+	if c.View == 1 && c.NP <= 32 {
+		p = x25519.Basepoint[:c.NP]
+	} else if c.View == 2 {
+		kb = bytes.Repeat([]byte{0x5a}, c.NS+40)
+		k = kb[5 : 5+c.NS]
+		pb = make([]byte, c.NP+40)
+		for i := range pb {
+			pb[i] = 9 // what lies beyond the view looks like more point bytes
+		}
+		p = pb[3 : 3+c.NP]
+		for i := 1; i < len(p); i++ {
+			p[i] = 0
+		}
+	} else if c.BasePoint {
 		p = x25519.Basepoint
 	} else {
 		p = make([]byte, c.NP)
@@ -312,6 +330,19 @@ func c07CheckLen(c c07LenCase) h.Result {
 	var err error
 	if pn, v := h.Catch(func() { out, err = x25519.X25519(k, p) }); pn {
 		return r.Fail("x25519.X25519:panic-on-length", "scalar len %d point len %d: %v", c.NS, len(p), v).Result()
+	}
+	if c.View == 2 {
+		if !bytes.Equal(kb, bytes.Repeat([]byte{0x5a}, len(kb))) {
+			r.Fail("x25519.X25519:wrote-to-scalar-buffer", "scalar len %d point len %d", c.NS, c.NP)
+		}
+		for i, b := range pb {
+			if (i < 3 || i >= 3+c.NP) && b != 9 {
+				r.Fail("x25519.X25519:wrote-outside-point-view", "scalar len %d point len %d offset %d", c.NS, c.NP, i-3)
+			}
+		}
+	}
+	if !bytes.Equal(x25519.Basepoint, c07Nine()) {
+		r.Fail("x25519.Basepoint:modified", "now %x", x25519.Basepoint)
 	}
 	if wantErr {
 		if err == nil {
@@ -334,6 +365,12 @@ func TestC07Lengths(t *testing.T) {
 	}
 	for _, n := range []int{96, 128, 255, 256, 1024} {
 		cases = append(cases, c07LenCase{NS: n, NP: 32}, c07LenCase{NS: 32, NP: n}, c07LenCase{NS: n, NP: 32, BasePoint: true})
+	}
+	for n := 0; n <= 32; n++ {
+		cases = append(cases, c07LenCase{NS: 32, NP: n, View: 1}, c07LenCase{NS: n, NP: n, View: 1})
+	}
+	for n := 0; n <= 70; n++ {
+		cases = append(cases, c07LenCase{NS: 32, NP: n, View: 2}, c07LenCase{NS: n, NP: 32, View: 2}, c07LenCase{NS: n, NP: n, View: 2})
 	}
 	h.RunList(t, cases, c07CheckLen)
 }
